@@ -132,6 +132,7 @@ func vh_C19_inductive() {
 	}
 	vAssume(vCacheInv(c, s))
 	s.failOn = true
+	s.partialDelete = true // a failing backend DeleteRange may have removed part of the range
 	vCacheOp(c, s, "op")
 	s.failOn = false
 	vAssert(vCacheInv(c, s), "C19.inductive.invariant")
